@@ -78,38 +78,6 @@ theorem C01_full_is_false : ¬ C01_full Nat Nat := by
 
 /-! ### what was read before never changes the data a mutator leaves behind -/
 
-/-- the data after a history, computed without the cache: reads are skipped -/
-def dataRun (d : D) : List (Op D V) → D
-  | [] => d
-  | .read _ :: t => dataRun d t
-  | .edit g :: t => dataRun (g d) t
-  | .mutate m :: t => dataRun (m.apply d) t
-
-theorem verify_data (s : St D V) : (verify s).data = s.data := by
-  unfold verify; split <;> rfl
-
-theorem run_data (f : String → D → V) (s : St D V) (ops : List (Op D V)) :
-    (run f s ops).data = dataRun s.data ops := by
-  induction ops generalizing s with
-  | nil => rfl
-  | cons op t ih =>
-    have hr : run f s (op :: t) = run f (step f s op).2 t := rfl
-    rw [hr, ih]
-    cases op with
-    | read k =>
-      have : (step f s (.read k)).2.data = s.data := by
-        show (Cache.read f s k).2.data = s.data
-        unfold Cache.read
-        cases h : (verify s).cache.lookup k <;> simp [h, verify_data]
-      rw [this]; rfl
-    | edit g => rfl
-    | mutate m =>
-      have : (step f s (.mutate m)).2.data = m.apply s.data := by
-        show (mutate m s).data = m.apply s.data
-        unfold mutate
-        cases m.verifiesFirst <;> simp [verify_data]
-      rw [this]; rfl
-
 /-- **reads never change the data**: for mutators whose change is a function of the data (the model of every library
     mutator but the one below), the vertices and faces after any history are those of the same history with every
     read removed - whichever values were read, in whatever order, in between -/
